@@ -45,6 +45,21 @@ CHECKS = {
             'execution is judged by TLC with the same formulas and validated as a model behaviour.',
             'Whole-minute virtual clock, two cron patterns; keystone trusts and the engine RPC client are fakes; serial transactions; sqlite.',
             'TLA+ model checked by TLC (safety + liveness) + spec-guided and random executions of the real code validated by TLC', '6.2'),
+    'C01': ('engine', 'model_checking',
+            'Generated direct DAGs (forks, all/one/N joins, guards, error routes, fail/succeed commands) and reverse graphs are run on the '
+            'REAL engine inside a deterministic world where every RPC delivery, post-commit operation, scheduler sub-step and clock jump '
+            'is an explicit schedule choice (8 policies, both schedulers); every step of every run is judged by TLC with the EngineProps '
+            'formulas NoHang, NoWaitingAtRest, DeclaredErrorsOnly (EngineObsTrace.tla).',
+            'Serial transactions in one process (tx_lock) - statement-level races between engine processes are out of reach here; sqlite; RPC transport, post-commit thread spawning, scheduler threads and action bodies replaced by the deterministic world; reliable messaging (duplicates/reordering explored, no loss).', 'TLA+ property formulas (EngineProps) evaluated by TLC on every step of recorded runs of the real engine under controlled schedules', '5, 7-C01'),
+    'C03': ('engine', 'model_checking',
+            'Runs with operator commands (pause, resume, stop with each state, rerun) and duplicate deliveries injected at random points; '
+            'TLC judges WfMoves (every committed state change AND every individual SQL-level state write against the transition table), '
+            'ResultOnce, SuccessSticky, FinishedFrozen on every step.',
+            'Serial transactions in one process (tx_lock) - statement-level races between engine processes are out of reach here; sqlite; RPC transport, post-commit thread spawning, scheduler threads and action bodies replaced by the deterministic world; reliable messaging (duplicates/reordering explored, no loss).', 'TLA+ property formulas (EngineProps) evaluated by TLC on every step of recorded runs of the real engine under controlled schedules', '5, 7-C03'),
+    'C04': ('engine', 'model_checking',
+            'Fork/join shapes (nested joins, joins fed by on-error/on-complete, guards that do not fire) and reverse requires-graphs under '
+            'adversarial completion orders; TLC judges JoinGate, JoinOnce, Caused, ReqGate, OnlyNeededOnce, NoWaitingAtRest on every step.',
+            'Serial transactions in one process (tx_lock) - statement-level races between engine processes are out of reach here; sqlite; RPC transport, post-commit thread spawning, scheduler threads and action bodies replaced by the deterministic world; reliable messaging (duplicates/reordering explored, no loss).', 'TLA+ property formulas (EngineProps) evaluated by TLC on every step of recorded runs of the real engine under controlled schedules', '5, 7-C04'),
 }
 
 NOT_YET = 'check not built yet (build in progress; see DESIGN.md section 12)'
